@@ -11,7 +11,7 @@
    Obj k      = k-th instance made by the harness, of harness class A (k even) or B (k odd)
    Foreign k  = an object that is not an instance of the manager's backend class *)
 From Coq Require Import List Arith Bool NArith ZArith Uint63.
-From TLV Require Import Model.Backend Corr.Common.
+From TLV Require Import Model.Backend Model.BackendDispatch Corr.Common.
 Import ListNotations.
 
 Definition cfg_backend : cfg := {| known := fun n => Nat.leb n 2; cname := fun k => if Nat.even k then 1 else 2 |}.
@@ -471,11 +471,179 @@ Definition decode_mN (l : list nat) : option mcaseN :=
   | _ => None
   end.
 
+(* ---- dispatch routes (leading digit 6): histories over the alphabet of Model/BackendDispatch.v - selections,
+   use_static_dispatch / use_dynamic_dispatch, references captured by one thread and called by another, calls through
+   the manager module / the import-time binding or module __getattr__ / the class - every operation with the
+   outcome the implementation showed (which object executed the call / served the attribute, or AttributeError).
+   Names   tensorly.backend: 0 context (function, bound in tensorly/__init__.py)  1 trace (function, via __getattr__)
+                             2 complex64 (attribute, via __getattr__)  3 int64 (attribute, bound in tensorly/__init__.py)
+           tensorly.tenalg : 0 outer (function, bound at import in tensorly.decomposition._cp_power)  1 inner (function)
+   digits: 6, tenalg, nthreads, main_holds, descr_class, int64 bound at import, nsteps (two digits, high first), then per step
+           kind (0 set, 1 enter, 2 exit, 3 use_static_dispatch, 4 use_dynamic_dispatch, 5 capture, 6 call captured, 7 call),
+           thread, a, b, c, outcome kind, outcome value
+             set/enter: a b c as above; exit: a = exceptional; capture/call: a = route (0 manager module, 1 top, 2 class),
+             b = name; call captured: a = index of the reference
+             outcome kind 0: outcome code of a selection operation; 1: nothing; 2: executed by (token); 3: value of (token);
+             4: AttributeError *)
+(* tb: does tensorly/__init__.py bind the attribute int64 by name at import?  (the current tree does; the candidate repair
+   build/fix_candidates/C17_static_attributes.diff does not - read off the import list by the harness) *)
+Definition nc_backend_of (tb : bool) : ncfg :=
+  {| is_fun := fun n => n <? 2; is_attr := fun n => (1 <? n) && (n <? 4); top_bound := fun n => (n =? 0) || (tb && (n =? 3)) |}.
+Definition nc_backend : ncfg := nc_backend_of true.
+Definition nc_tenalg : ncfg :=
+  {| is_fun := fun n => n <? 2; is_attr := fun _ => false; top_bound := fun n => n =? 0 |}.
+Definition nc_of (tb tenalg : bool) : ncfg := if tenalg then nc_tenalg else nc_backend_of tb.
+
+Definition tok_ok (tenalg : bool) (b : inst) (tok : nat) : bool :=
+  match dec_tok tok with
+  | Some j => inst_eqb b j
+  | None => match b with Named n => stock tenalg n | _ => false end
+  end.
+
+Definition dobs_ok (tenalg : bool) (model : dobs) (kind tok : nat) : bool :=
+  match model, kind with
+  | DSelObs o, 0 => obs_eqb o (dec_out tok)
+  | DNone, 1 => true
+  | DRan b, 2 => tok_ok tenalg b tok
+  | DVal b, 3 => tok_ok tenalg b tok
+  | DErr, 4 => true
+  | _, _ => false
+  end.
+
+Definition dec_route (a : nat) : route := match a with 0 => RMgr | 1 => RTop | _ => RClass end.
+
+Definition dec_dop (k t a b c : nat) : dop :=
+  match k with
+  | 0 => DSel (Set_ t (dec_sel a b) (dec_bool c))
+  | 1 => DSel (Enter t (dec_sel a b) (dec_bool c))
+  | 2 => DSel (Exit_ t (dec_bool a))
+  | 3 => DStatic t
+  | 4 => DDynamic t
+  | 5 => DCapture t (dec_route a) b
+  | 6 => DCallCap t a
+  | _ => DCall t (dec_route a) b
+  end.
+
+Fixpoint dec_dsteps (n : nat) (l : list nat) : option (list (dop * nat * nat)) :=
+  match n with
+  | O => match l with [] => Some [] | _ => None end
+  | S n' => match l with
+            | k :: t :: a :: b :: c :: ok :: ov :: l' =>
+                match dec_dsteps n' l' with Some es => Some ((dec_dop k t a b c, ok, ov) :: es) | None => None end
+            | _ => None
+            end
+  end.
+
+Fixpoint dcheck (tenalg : bool) (D : drules) (nc : ncfg) (d : dst) (es : list (dop * nat * nat)) : bool :=
+  match es with
+  | [] => true
+  | (o, ok, ov) :: es' =>
+      let (d', ob) := dstep fixed_rules (cfg_of tenalg) D nc d o in
+      dobs_ok tenalg ob ok ov && dcheck tenalg D nc d' es'
+  end.
+
+Definition agree_d (l : list nat) : bool :=
+  match l with
+  | ta :: nth :: own :: dc :: tb :: nhi :: nlo :: r =>
+      match dec_dsteps (nhi * 64 + nlo) r with
+      | Some es =>
+          let tenalg := dec_bool ta in
+          let nc := nc_of (dec_bool tb) tenalg in
+          dcheck tenalg {| descr_class := dec_bool dc |} nc
+                 (dinit nc (own_of (if dec_bool own then [(0, Named 0)] else []))) es
+      | None => false
+      end
+  | _ => false
+  end.
+
+(* thread 1 captures tensorly.context; thread 2 selects harness instance 0 thread-locally; the captured closure called
+   by thread 2 runs on Obj 0, called by a thread without selection on the default; class-level attribute access
+   raises; after use_static_dispatch by thread 2 the manager route is frozen on Obj 0 for everybody while the
+   import-time binding still follows the caller; one altered outcome is noticed *)
+Example dispatch_case_example :
+  let good := [0;4;1;0;1; 0;9;
+               5;1;1;0;0; 1;0;   0;2;1;0;1; 0;0;   6;2;0;0;0; 2;8;   6;3;0;0;0; 2;2;   7;2;2;2;0; 4;0;
+               3;2;0;0;0; 1;0;   7;3;0;0;0; 2;8;   7;3;1;0;0; 2;2;   7;3;0;2;0; 3;8] in
+  let bad := firstn (length good - 1) good ++ [2] in
+  agree_d good = true /\ agree_d bad = false /\ agree_d (firstn 42 good) = false.
+Proof. vm_compute. repeat split. Qed.
+
+(* ---- the dispatch expressions extracted from the SOURCE (ast) by the harness (leading digit 7):
+     look-up kind of the closure of dispatch_backend_method, of current_backend(), of get_backend(), of the descriptor
+     reached through an instance (0 thread-local slot else shared default, 1 shared default only, 2 thread-local slot
+     only, 3 the method captured when the closure was made);
+     the descriptor's class test (0 `isinstance is None` - never true, 1 `instance is None`) and the look-up of its class
+     branch; descr_class as probed on the running code; is int64 in the import list of tensorly/__init__.py?;
+     what use_dynamic_dispatch installs for _functions / _attributes of BackendManager and of TenalgBackendManager
+     (0 staticmethod(closure), 1 descriptor); tensorly.__getattr__ = backend.__getattribute__ ?;
+     then for the modelled names (4 of tensorly.backend, 2 of tensorly.tenalg): in _functions?, in _attributes?, bound by
+     name at import?
+   They must be the model's: every look-up IS `cur` on a family of states, functions get the closure and attributes the
+   descriptor, the name tables are nc_backend / nc_tenalg, and the class test explains the probed behaviour. *)
+Definition lk_sem (k : nat) (s : st) (t : tid) : inst :=
+  match k with
+  | 0 => match tls s t with Some b => b | None => shared s end
+  | 1 => shared s
+  | 2 => match tls s t with Some b => b | None => Foreign 98 end
+  | _ => Foreign 97
+  end.
+
+Definition lk_family : list st :=
+  flat_map (fun sh => map (fun tl => {| shared := sh; dname := 0; tls := fun t => if Nat.eqb t 1 then tl else None;
+                                         loaded := fun _ => false; ctx := fun _ => [] |})
+                          [None; Some (Obj 1)])
+           [Named 0; Obj 6].
+
+Definition lk_ok (k : nat) : bool :=
+  forallb (fun s => forallb (fun t => inst_eqb (lk_sem k s t) (cur s t)) [1; 2]) lk_family.
+
+Fixpoint names_ok (nc : ncfg) (n : nat) (k : nat) (l : list nat) : option (list nat) :=
+  match k with
+  | O => Some l
+  | S k' => match l with
+            | f :: a :: tb :: l' =>
+                if Bool.eqb (dec_bool f) (is_fun nc n) && Bool.eqb (dec_bool a) (is_attr nc n) && Bool.eqb (dec_bool tb) (top_bound nc n)
+                then names_ok nc (S n) k' l' else None
+            | _ => None
+            end
+  end.
+
+Definition agree_dsrc (l : list nat) : bool :=
+  match l with
+  | wrap :: curk :: getk :: instk :: clstest :: clsk :: dc :: tb :: bf :: ba :: tf :: ta :: modget :: l' =>
+      lk_ok wrap && lk_ok curk && lk_ok getk && lk_ok instk &&
+      (if Nat.eqb clstest 1 then lk_ok clsk else Nat.eqb clstest 0) &&
+      Bool.eqb (dec_bool dc) (Nat.eqb clstest 1) &&
+      Nat.eqb bf 0 && Nat.eqb ba 1 && Nat.eqb tf 0 && Nat.eqb ta 1 && Nat.eqb modget 1 &&
+      match names_ok (nc_backend_of (dec_bool tb)) 0 4 l' with
+      | Some l'' => match names_ok nc_tenalg 0 2 l'' with Some [] => true | _ => false end
+      | None => false
+      end
+  | _ => false
+  end.
+
+(* the current tree's source; the repaired descriptor; NOT accepted: a closure that reads only the shared default, a
+   closure bound to the method it was made with, a function name bound like an attribute, a name table that differs from the model's (int64 bound or not must match the flag; trace bound at import) *)
+Example dsrc_example :
+  let tail := [0;1;0;1;1; 1;0;1; 1;0;0; 0;1;0; 0;1;1; 1;0;1; 1;0;0] in
+  agree_dsrc ([0;0;0;0;0;0;0;1] ++ tail) = true /\
+  agree_dsrc ([0;0;0;0;1;0;1;1] ++ tail) = true /\
+  agree_dsrc ([1;0;0;0;0;0;0;1] ++ tail) = false /\
+  agree_dsrc ([3;0;0;0;0;0;0;1] ++ tail) = false /\
+  agree_dsrc ([0;0;0;0;1;0;0;1] ++ tail) = false /\
+  agree_dsrc ([0;0;0;0;0;0;0;1] ++ [1;1;0;1;1; 1;0;1; 1;0;0; 0;1;0; 0;1;1; 1;0;1; 1;0;0]) = false /\
+  agree_dsrc ([0;0;0;0;0;0;0;1] ++ [0;1;0;1;1; 1;0;1; 1;0;0; 0;1;0; 0;1;0; 1;0;1; 1;0;0]) = false /\
+  agree_dsrc ([0;0;0;0;0;0;0;0] ++ [0;1;0;1;1; 1;0;1; 1;0;0; 0;1;0; 0;1;0; 1;0;1; 1;0;0]) = true /\
+  agree_dsrc ([0;0;0;0;0;0;0;1] ++ [0;1;0;1;1; 1;0;1; 1;0;1; 0;1;0; 0;1;1; 1;0;1; 1;0;0]) = false.
+Proof. vm_compute. repeat split. Qed.
+
 Definition agree (c : case) : bool :=
   match digits (snd c) with
   | 3 :: l => match decode_m l with Some m => agree_m m | None => false end
   | 4 :: l => agree_src l
   | 5 :: l => match decode_mN l with Some m => agree_mN m | None => false end
+  | 6 :: l => agree_d l
+  | 7 :: l => agree_dsrc l
   | _ => agree_hist (snd c)
   end.
 
